@@ -537,7 +537,7 @@ bool RawDataQueryFilter :: Matches(ConstMessageRef & msg, const DataNode *) cons
       else return false;
    }
 
-   const uint8 * hisBytes  = (const uint8 *) hb;
+   const uint8 * hisBytes  = hb ? (const uint8 *) hb : (const uint8 *) "";  // a zero-length default-buffer has a NULL pointer, which we mustn't pass to memcmp()
    const uint32 myNumBytes = _value() ? _value()->GetNumBytes() : 0;
    const uint8 * myBytes   = _value() ? _value()->GetBuffer()   : NULL;
    const uint32 clen       = muscleMin(myNumBytes, hisNumBytes);
